@@ -3176,3 +3176,55 @@ func ruleRegistryEntryImmutable(r *Run) {
 	}
 	r.Min("functions_reading_the_numbering_registry", n, 2)
 }
+
+// ---------------------------------------------------------------------------
+// R-AUTOLINK-LABEL (C19): the visible text of an auto-link is its label — the characters that
+// stand in the source.  (*ast.AutoLink).URL synthesises a scheme for bare www./e-mail addresses
+// ("www.example.net" → "http://www.example.net"); its result must not become run text, extracted
+// text, or the result of a text helper.
+// ---------------------------------------------------------------------------
+
+func ruleAutoLinkLabel(r *Run) {
+	p := r.P
+	n, labels := 0, 0
+	for _, fn := range p.ModFuncs() {
+		if fn.Pkg == nil || fn.Pkg.Pkg.Path() != pkgMd {
+			continue
+		}
+		allInstrs(fn, func(in ssa.Instruction) {
+			c, ok := in.(*ssa.Call)
+			if !ok {
+				return
+			}
+			cn := calleeName(c)
+			if strings.HasSuffix(cn, "goldmark/ast.AutoLink).Label") {
+				labels++
+			}
+			if !strings.HasSuffix(cn, "goldmark/ast.AutoLink).URL") {
+				return
+			}
+			n++
+			bad := ""
+			for use := range forwardFlow(c, nil) {
+				switch u := use.(type) {
+				case *ssa.Return:
+					if len(u.Results) > 0 && (isStringType(u.Results[0].Type()) || u.Results[0].Type().String() == "[]byte") {
+						bad = "it is returned as text at " + p.pos(u.Pos())
+					}
+				case *ssa.Call:
+					ucn := calleeName(u)
+					switch {
+					case strings.Contains(ucn, ").AddFormattedText") || strings.Contains(ucn, ").AddParagraph") || strings.Contains(ucn, ").AddText"):
+						bad = "it becomes run text at " + p.pos(u.Pos())
+					case strings.HasSuffix(ucn, ").Write") || strings.HasSuffix(ucn, ").WriteString"):
+						bad = "it is written into extracted text at " + p.pos(u.Pos())
+					}
+				}
+			}
+			r.Check("autolink-label", fmt.Sprintf("%s#%d", shortName(topLevel(fn)), n), c.Pos(), bad == "",
+				fmt.Sprintf("%s calls AutoLink.URL: %s", shortName(topLevel(fn)), map[bool]string{true: "the result is used as a link target only", false: bad + " — for a bare www. or e-mail address the URL carries a scheme that is not in the source, so the document shows text the Markdown does not contain"}[bad == ""]))
+		})
+	}
+	r.Count("autolink_url_calls", n)
+	r.Count("autolink_label_uses", labels)
+}
